@@ -32,8 +32,10 @@ func (l *dependencyLoader) LoadEntry(c px.Context, name px.TypedName) px.LoaderE
 	if entry == nil {
 		verifhook.Point("dependency.before-find")
 		entry = l.find(c, name)
-		if entry == nil {
-			entry = &loaderEntry{nil, nil}
+		if entry == nil || entry.Value() == nil {
+			// A miss is not cached here. The module loaders cache their own, and one of them may still
+			// define the name (a member of a TypeSet that is being resolved when this question is asked).
+			return &loaderEntry{nil, nil}
 		}
 		verifhook.Point("dependency.before-set")
 		l.SetEntry(name, entry)
